@@ -303,7 +303,8 @@ def _ill_cases():
     import numpy as np
     odd = [('str', lambda: "a"), ('none', lambda: None), ('list', lambda: [1.0]), ('complex', lambda: 1 + 2j),
            ('npint64', lambda: np.int64(3)), ('npfloat32', lambda: np.float32(0.5)), ('npfloat64', lambda: np.float64(0.5)),
-           ('bool', lambda: True), ('tuple', lambda: (1, 2))]
+           ('bool', lambda: True), ('tuple', lambda: (1, 2)), ('npuint8', lambda: np.uint8(3)), ('npint8', lambda: np.int8(100)),
+           ('npfloat16', lambda: np.float16(0.1)), ('npint32', lambda: np.int32(7))]
     return odd
 
 
@@ -330,6 +331,7 @@ def prog_illtyped(env, case):
         'add': lambda a, b: a + b, 'radd': lambda a, b: b + a, 'sub': lambda a, b: a - b, 'rsub': lambda a, b: b - a,
         'mul': lambda a, b: a * b, 'rmul': lambda a, b: b * a, 'div': lambda a, b: a / b, 'rdiv': lambda a, b: b / a,
         'pow3': lambda a, b: a ** 3, 'pow1': lambda a, b: a ** 1, 'le': lambda a, b: a <= b, 'eq': lambda a, b: a == b,
+        'twice': lambda a, b: a * b + a * b,
     }
     try:
         with warnings.catch_warnings():
@@ -348,7 +350,8 @@ def prog_illtyped(env, case):
     def meaning_scalar(v):
         return {'add': lambda: v + num, 'radd': lambda: num + v, 'sub': lambda: v - num, 'rsub': lambda: num - v,
                 'mul': lambda: v * num, 'rmul': lambda: num * v,
-                'div': lambda: v * (1 / num)}.get(opname)   # binary64 reciprocal, as Python computes it
+                'div': lambda: v * (1 / num),                 # binary64 reciprocal, as Python computes it
+                'twice': lambda: 2 * (v * num)}.get(opname)
 
     if opname in ('pow3', 'pow1'):
         env.check(False, "Point/Expression ** %s did not raise" % opname[-1], signature=sig)
@@ -357,14 +360,14 @@ def prog_illtyped(env, case):
         # Python's default comparison (identity): no object with another meaning was produced
         return "notimplemented"
     if lhs_kind == 'P':
-        if num is not None and opname in ('mul', 'rmul', 'div') and isinstance(r, Point):
+        if num is not None and opname in ('mul', 'rmul', 'div', 'twice') and isinstance(r, Point):
             rv = den_point(r, P, DIM)
             for k in range(DIM):
                 env.check_eq(rv[k], meaning_scalar(lv[k])(), what, signature=sig)
             return "scalar-ok"
         env.check(False, what, signature=sig)
     else:
-        if num is not None and opname in ('add', 'radd', 'sub', 'rsub', 'mul', 'rmul', 'div') and isinstance(r, Expression):
+        if num is not None and opname in ('add', 'radd', 'sub', 'rsub', 'mul', 'rmul', 'div', 'twice') and isinstance(r, Expression):
             env.check_eq(den_expr(r, P, F), meaning_scalar(lv)(), what, signature=sig)
             return "scalar-ok"
         if num is not None and opname in ('le', 'eq') and isinstance(r, Constraint):
@@ -541,7 +544,7 @@ def cases(tier):
                            tiny_scalars=True, replay_tol=1e-14))
     odd = [n for n, _ in _ill_cases()]
     for lhs in ('P', 'E'):
-        for op in ('add', 'radd', 'sub', 'rsub', 'mul', 'rmul', 'div', 'rdiv', 'pow3', 'le', 'eq'):
+        for op in ('add', 'radd', 'sub', 'rsub', 'mul', 'rmul', 'div', 'rdiv', 'pow3', 'le', 'eq', 'twice'):
             for o in odd + (['E2'] if lhs == 'P' else ['P2']):
                 cs.append(dict(id="ill-%s-%s-%s" % (lhs, op, o), kind='illtyped', lhs=lhs, op=op, odd=o))
     cs.append(dict(id="store-1", kind='store', n=1))
